@@ -914,6 +914,15 @@ class Engine:
                 return v
             if spec is not None and attr in spec.env_methods:
                 return VFunc("env", recv=base, name=base.cls + "." + attr, attr=attr, spec=spec.env_methods[attr])
+            if spec is not None and self.class_node(base.cls) is not None and attr.startswith("_") and not attr.startswith("__"):
+                # a private instance field the contracts do not know (new code may add state): an arbitrary value, the same on every read until
+                # it is written; listed in the evidence so that a typo in a contract does not hide behind it
+                note = "undeclared field read as an arbitrary value: %s.%s" % (base.cls, attr)
+                if note not in self.notes:
+                    self.notes.append(note)
+                v = VOpaque("field:" + attr)
+                self.state.heap[key] = v
+                return v
             raise OutOfSubset("attribute %s of %s" % (attr, base.cls), node)
         if isinstance(base, VNone):
             raise RaiseSig(VExc("AttributeError"))
